@@ -179,7 +179,7 @@ pub fn run(prop: &str, tier: &str) -> i32 {
     let workers = env_u64("VERIF_WORKERS", 16).max(1);
     let thorough = tier == "thorough";
     let total = env_u64("VERIF_RUNS", if thorough { spec.thorough_runs } else { spec.quick_runs });
-    let deadline = env_u64("VERIF_DEADLINE_S", if thorough { 3000 } else { 150 });
+    let deadline = env_u64("VERIF_DEADLINE_S", if thorough { 1500 } else { 150 });
     let root = root();
     let scratch = root.join("scratch");
     let _ = std::fs::create_dir_all(&scratch);
